@@ -712,16 +712,16 @@ func ruleSlotWaitErrorReturnedAsIs(c *chk.Ctx, d *dispatchModel) {
 	sameErr := func(x ssa.Value) bool { return x == ssa.Value(acq) || ir.NormCell(x) == ssa.Value(acq) }
 	n := 0
 	bad := ""
-	for _, r := range ir.Returns(f) {
-		if len(r.Results) != 2 || !ir.InstrDominates(acq, r) {
+	for _, r := range invokeOutcomes(c, d) {
+		if r.at.Parent() != f || !ir.InstrDominates(acq, r.at) {
 			continue
 		}
-		if !ir.ProvesNonNil(ir.CondsAt(r.Block()), sameErr) {
+		if !ir.ProvesNonNil(r.conds, sameErr) {
 			continue
 		}
 		n++
-		if !sameErr(ir.ReturnResult(r, 1)) {
-			bad = c.P.Pos(r.Pos())
+		if r.err == nil || !sameErr(r.err) {
+			bad = c.P.Pos(r.at.Pos())
 		}
 	}
 	if n == 0 {
